@@ -402,6 +402,7 @@ func registerIntrinsics(ex *Exec) {
 	registerConcretizing(ex)
 	registerBytealg(ex)
 	registerJSON(ex)
+	registerReflect(ex)
 }
 
 // nativeError builds an error value (*errors.errorString) for a message.
